@@ -387,7 +387,13 @@ def r136(ctx) -> None:
     for a in apps:
         c = next(x for x in a.calls() if call_name(x) == 'append')
         arg = txt(c.args[0]) if c.args else ''
-        for v in resolve_local(f, c.args[0]) if c.args else []:
+        raw = []
+        if c.args:
+            raw = [c.args[0]]
+            if isinstance(c.args[0], ast.Name):
+                raw += [v for _, v in local_assigns(f, c.args[0].id)
+                        if v is not None]
+        for v in raw:
             if isinstance(v, ast.IfExp):
                 at = guard_atoms(v.test)
                 if at == [('cmd.uid', True)] and txt(v.body) == \
